@@ -81,10 +81,15 @@ func (w *responseWriter) Write(b []byte) (size int, err error) {
 		// The status will be StatusOK if WriteHeader has not been called yet.
 		w.WriteHeader(http.StatusOK)
 	}
-	if w.method != http.MethodHead {
-		size, err = w.ResponseWriter.Write(b)
-		w.size += size
+	if w.method == http.MethodHead {
+		// Nothing is sent for HEAD requests, but the bytes are reported as consumed
+		// because returning a short count without an error breaks the contract of
+		// io.Writer, e.g. a bufio.Writer on top fails with io.ErrShortWrite.
+		return len(b), nil
 	}
+
+	size, err = w.ResponseWriter.Write(b)
+	w.size += size
 	return size, err
 }
 
